@@ -370,6 +370,7 @@ pub fn run(p: &Params, rep: &mut Report) {
         let mut cfg = GenCfg::default();
         cfg.hostile_ids = rng.chance(1, 2);
         cfg.hostile_values = true;
+        cfg.keydata_in_complex = rng.chance(1, 3);
         cfg.removals = rng.chance(1, 3);
         cfg.max_anns = 12;
         let nops = rng.range(6, if p.thorough { 30 } else { 22 }) as usize;
